@@ -43,7 +43,6 @@ type request struct {
 	Yield     uint64 `json:"yield"`
 	TimeoutMs int    `json:"timeout_ms"`
 	MaxLog    int    `json:"max_log"`
-	Gap       int    `json:"gap"` // >0: the first Gap goroutines inside ForIter wait for each other between Next and Entry
 }
 
 type response struct {
@@ -53,7 +52,6 @@ type response struct {
 	Logs     map[string][]interface{} `json:"logs"`
 	Ms       int64                    `json:"ms"`
 	Overflow bool                     `json:"overflow"`
-	GapHook  bool                     `json:"gap_hook"`
 	CtxDone  bool                     `json:"ctx_done"` // the evaluation's context had ended when Eval returned
 }
 
@@ -76,6 +74,12 @@ func canon(o object.Object, depth int) interface{} {
 		out := make([]interface{}, 0, len(o.Value()))
 		for _, it := range o.Value() {
 			out = append(out, canon(it, depth+1))
+		}
+		return out
+	case *object.Map:
+		out := map[string]interface{}{}
+		for k, v := range o.Value() {
+			out[k] = canon(v, depth+1)
 		}
 		return out
 	case *object.Error:
@@ -254,10 +258,6 @@ func runOne(req request) (resp response) {
 	ctx, cancel := context.WithTimeout(context.Background(), to)
 	defer cancel()
 	rc.cancel = cancel
-	resp.GapHook = gapSupported
-	if req.Gap > 0 {
-		defer installGap(req.Gap)()
-	}
 	t0 := time.Now()
 	type outcome struct {
 		res object.Object
